@@ -14,12 +14,15 @@
   * `std::invalid_argument` from `get_num` is the `none` result of `LineBuffer.getNum`; the three
     `try/catch` wrappers (`read_duration`, `read_parameter`, `expect_parameter`) are matches on it.
   * exceptions that are NOT `InputError` and are not caught inside `parse_line` escape as
-    `Err.foreign`; undefined-behaviour sites are `Err.foreign "ub:…"`.  After the two repairs
+    `Err.foreign`; undefined-behaviour sites are `Err.foreign "ub:…"`.  After the repairs
     (`*` without a number: fix 57aa26b; `~` not followed by a note letter: fix 3eaf999 — before
     them `std::invalid_argument` escaped, `get_key_signature` shifted by a negative amount and
-    `strtol` was started beyond the terminating NUL) the sites still reachable from text are
-      - `ub:signed-overflow`     `int` arithmetic: `expect_parameter() - 1` (`o`), `octave ± 1`,
-                                 `note + octave*12`, `-read_parameter(1)` (`(`), `duration += dot`
+    `strtol` was started beyond the terminating NUL; numbers near `INT_MAX`/`INT_MIN`: fixes
+    a16b488, a22a11c — before them `duration += dot`, `expect_parameter() - 1` (`o`),
+    `-read_parameter(1)` (`(`), `note + octave*12` and `octave ± 1` were signed `int` overflow)
+    no undefined-behaviour site of the reader is reachable from text any more: the arithmetic
+    is done in `long long` / `unsigned` and narrowed (list below); `Track.applyOp` still reports
+    `ub:signed-overflow` for `note += drum_mode`, which `read_note`'s values (−1..12) cannot reach.
     (`keySigOf` keeps the general shape of `get_key_signature`'s failure modes; `read_note` is
     only called with a letter `a`..`h`, for which they cannot occur — `Proofs/Mml`.)
   * loops: `parse_mml_track` runs on explicit fuel `buf.length + 2 − column` (every iteration
@@ -28,7 +31,10 @@
     `_{…}`, tag key, dots) are structural recursions over the rest of the line.
 
   Narrowings made explicit: `track_list.push_back(int)` → `uint16_t` (`wrapU16`);
-  `read_duration()` (`unsigned`) → `uint16_t` at every `Track` call (`UInt16.ofNat`);
+  `read_duration()`: `long long duration` → `unsigned` return (`wrapU32`; the value is below
+  2^32 anyway: at most twice the parsed `int`) → `uint16_t` at every `Track` call (`UInt16.ofNat`);
+  `o`: `(long long)expect_parameter() - 1` → `set_octave(int)` (`wrapS32`);
+  `(`: `-(long long)read_parameter(1)` → `int16_t` event parameter (`wrapS16` in `addEvent`);
   `expect_parameter()` (`int`) → `uint16_t` for `Q q C D`, → `int16_t` for `s`, events and echo;
   `int8_t val = c - 'a'` (`wrapS8`); `char c = get()` in `platform_exclusive`;
   `tag_key.push_back(std::tolower(c))`.
@@ -147,10 +153,6 @@ def setTrack (s : MmlState) (t : Track) : MmlState :=
 def track : P Track := fun s => .ok (getTrack s) s
 def modifyTrack (f : Track → Track) : P Unit := fun s => .ok () (setTrack s (f (getTrack s)))
 
-/-- checked `int` addition: overflow is undefined behaviour -/
-def addInt (a b : Int) : P Int :=
-  if inInt32 (a + b) then pure (a + b) else fail (.foreign "ub:signed-overflow")
-
 /-- one `Track` call through `Track.applyOp` without its report (UB → `Err.foreign`) -/
 def trackOp (op : Track.Op) : P Unit := fun s =>
   match (getTrack s).applyOp op with
@@ -165,7 +167,8 @@ def countDots : List Nat → Nat
   | [] => 0
   | c :: cs => if c = 46 then countDots cs + 1 else 0
 
-/-- the `while(1)` loop of `read_duration` over the `k` dots that follow -/
+/-- the `while(1)` loop of `read_duration` over the `k` dots that follow; `duration` and `dot`
+are `long long` (fix a16b488): `duration += dot` stays below twice the parsed `int` -/
 def dotsLoop : Nat → Int → Int → P Int
   | 0, dur, _ => do
     let _ ← getC
@@ -173,10 +176,9 @@ def dotsLoop : Nat → Int → Int → P Int
     pure dur
   | k + 1, dur, dot => do
     let _ ← getC
-    let dur' ← addInt dur dot
-    dotsLoop k dur' (dot / 2)
+    dotsLoop k (dur + dot) (dot / 2)
 
-/-- `MML_Input::read_duration()` -/
+/-- `MML_Input::read_duration()`: `return (unsigned)duration` -/
 def readDuration : P Nat := do
   let c ← getC
   let d0 : Option Int ←
@@ -194,7 +196,7 @@ def readDuration : P Nat := do
   let s ← getS
   let k := countDots (s.inp.lb.buf.drop s.inp.lb.column)
   let r ← dotsLoop k duration (duration / 2)
-  pure r.toNat
+  pure (wrapU32 r)
 
 /-- `MML_Input::read_parameter(default)` -/
 def readParameter (dflt : Int) : P Int := do
@@ -350,8 +352,8 @@ def mmlBasic : P Bool := do
   else if c == 38 then do
     mmlSlur; pure false
   else if c == 111 then do
-    let v ← addInt (← expectParameter) (-1)
-    trackOp (.setOctave v); pure false
+    -- `set_octave((long long)expect_parameter() - 1)`: `long long` → `int` parameter
+    trackOp (.setOctave (wrapS32 ((← expectParameter) - 1))); pure false
   else if c == 60 then do
     trackOp (.changeOctave (-1)); pure false
   else if c == 62 then do
@@ -409,9 +411,8 @@ def mmlEnvelope : P Bool := do
   else if c == 118 then do
     trackOp (.addEvent ev_VOL (← expectParameter) 0 0); pure false
   else if c == 40 then do
-    let v ← readParameter mmlDefaultVolStep
-    if v = -2147483648 then fail (.foreign "ub:signed-overflow")
-    trackOp (.addEvent ev_VOL_REL (-v) 0 0); pure false
+    -- `-(long long)read_parameter(1)` → `int16_t param` (narrowed by `addEvent`)
+    trackOp (.addEvent ev_VOL_REL (-(← readParameter mmlDefaultVolStep)) 0 0); pure false
   else if c == 41 then do
     trackOp (.addEvent ev_VOL_REL (← readParameter mmlDefaultVolStep) 0 0); pure false
   else if c == 86 then do
